@@ -3,12 +3,12 @@ package main
 // Operators, conversions, interfaces, maps.
 
 import (
-	"os"
-	"sort"
 	"fmt"
 	"go/token"
 	"go/types"
 	"math"
+	"os"
+	"sort"
 	"strings"
 
 	"golang.org/x/tools/go/ssa"
@@ -633,7 +633,6 @@ func (r *FnRun) execNext(st *State, x *ssa.Next) {
 
 var _ = ssa.Value(nil)
 
-
 // linkAttrs: when a type assertion to concrete type T succeeds on interface value iv, the per-type ghost attributes
 // of iv (uninterpreted while its dynamic type is symbolic) equal their definitions for T.
 func (r *FnRun) linkAttrs(st *State, iv IfaceV, T types.Type, okT *Term) {
@@ -667,7 +666,6 @@ func (r *FnRun) linkAttrs(st *State, iv IfaceV, T types.Type, okT *Term) {
 		r.assume(st, tb.Implies(okT, tb.Eq(at, bt)))
 	}
 }
-
 
 // guardCheck: an access to a package-level map declared `guard M by MU` needs MU held by the executing goroutine:
 // write-locked for an update, read- or write-locked for a lookup (C12 lock discipline).
